@@ -123,27 +123,23 @@ impl PageCache {
             return Ok(None);
         };
 
-        let mut found_victim = None;
-        // Attempt to iterate over all the frames.
-        while self.cursor <= self.frames.len() && found_victim.is_none() {
-            if let Some((pid, frame)) = self.frames.get_index(self.cursor) {
-                if frame.is_free() {
-                    self.stats.eviction();
+        // Sweep once over all the frames, starting at the cursor and wrapping around at the end.
+        for _ in 0..self.frames.len() {
+            if self.cursor >= self.frames.len() {
+                self.cursor = 0;
+            }
 
-                    let (_, victim) = self.frames.swap_remove_index(self.cursor).unwrap();
-
-                    found_victim = Some(victim);
-                    break;
-                }
+            if let Some((_, frame)) = self.frames.get_index(self.cursor)
+                && frame.is_free()
+            {
+                self.stats.eviction();
+                let (_, victim) = self.frames.swap_remove_index(self.cursor).unwrap();
+                return Ok(Some(victim));
             };
 
             // Not evictable.
             self.cursor += 1;
         }
-
-        if found_victim.is_some() {
-            return Ok(found_victim);
-        };
 
         Err(IoError::new(
             ErrorKind::OutOfMemory,
